@@ -219,7 +219,7 @@ PROPS["C08"] = dict(
     level="exploration",
     engine="E1",
     parts=[dict(bin="e1_vfunc", opts={"prop": "C08"}, timeout_s={"quick": 900, "thorough": 14400})],
-    rule="case = (backend, hash width b, n, run-time configuration): every n in 0..=N for the 8-bit BitFieldVec<usize> and Box<[u8]> filters; n in {0,1,3,10,100,101,1000} x b in {1,2,3,7,8,9,15,16,31,32,33,63,64} (BitFieldVec<usize>), b in 1..=8 (BitFieldVec<u8>), Box<[u8|u16|u32|u64]>, four other shard/edge logics, every single-axis run-time deviation; false positives counted exhaustively over a fixed 2^16-element non-member probe set for n = 1000 (b <= 16) and n = 100000 (b in {1,4,8,12} and Box<[u8]>)",
+    rule="case = (backend, hash width b, n, run-time configuration): every n in 0..=N for the 8-bit BitFieldVec<usize> and Box<[u8]> filters; n in {0,1,3,10,100,101,1000} x b in {1,2,3,7,8,9,15,16,31,32,33,63,64} (BitFieldVec<usize>), b in 1..=8 (BitFieldVec<u8>), Box<[u8|u16|u32|u64]>, four other shard/edge logics, every single-axis run-time deviation; BitFieldVec<u16|u32|u64> at their full width and one below; false positives counted exhaustively over a fixed 2^16-element non-member probe set for EVERY width at n = 10 and n = 1000 (for wide hashes the accepted band is [0, 2]) and at n = 100000 (b in {1,4,8,12} and Box<[u8]>)",
     alphabet="see rule",
     bound={"quick": "N=200", "thorough": "N=1500, sizes also 5000, 150000, 400001"},
     oracle="contains(k) and filter[k] true for every inserted key; len() == n; hash_bits() == b; false-positive count within mean +- (6 sigma + 2) of the binomial(2^16, 2^-b) distribution (deterministic: fixed seeds, fixed probes)",
